@@ -11,6 +11,11 @@ mod node;
 mod pnode;
 mod probe;
 mod relay;
+mod kadin;
+mod rr;
+mod identify;
+mod autonat;
+mod rendezvous;
 mod script;
 
 fn main() {
@@ -20,5 +25,10 @@ fn main() {
     checks.extend(core3::checks());
     checks.extend(core4::checks());
     checks.extend(relay::checks());
+    checks.extend(kadin::checks());
+    checks.extend(rr::checks());
+    checks.extend(identify::checks());
+    checks.extend(autonat::checks());
+    checks.extend(rendezvous::checks());
     simkit::main_with(checks);
 }
